@@ -3,6 +3,7 @@ import NitroVerif.Drv.Str
 import NitroVerif.Drv.Fmt
 import NitroVerif.Drv.FV
 import NitroVerif.Drv.Hash
+import NitroVerif.Drv.Iter
 
 /-!
 `nvdriver model`  : one case per line on stdin, the model's answer per line on stdout.
@@ -17,6 +18,7 @@ def modelLine (line : String) : String :=
   | "fmt" :: rest => Drv.Fmt.model rest
   | "fv" :: rest => Drv.FV.model rest
   | "hash" :: rest => Drv.Hash.model rest
+  | "iter" :: rest => Drv.Iter.model rest
   | _ => "bad-op"
 
 def judgeLine (line : String) : String :=
@@ -27,6 +29,7 @@ def judgeLine (line : String) : String :=
     | "fmt" :: rest => Drv.Fmt.judge rest ans
     | "fv" :: rest => Drv.FV.judge rest ans
     | "hash" :: rest => Drv.Hash.judge rest ans
+    | "iter" :: rest => Drv.Iter.judge rest ans
     | _ => "bad-op"
   | _ => "bad-op"
 
